@@ -2627,3 +2627,24 @@ for _P in ("C07", "C01"):
       "    remove_event_edges_and_event_sets(event_edges, graph)\n    for event in events_out_of_end_events:\n        graph.add_edge(loop_event, event)",
       "    for event in events_out_of_end_events:\n        graph.add_edge(loop_event, event)",
       "the orchestration removes every out-edge of the loop's events right after (triaged)")
+
+# ============================================================ D9 (genuine defect, fixed in /repo 5a2a09c)
+M("C05", "d9-revert", CUG,
+  "                ) and event not in loop.end_events and (\n                    event in loop.loop_events\n                ):",
+  "                ) and event not in loop.end_events:", "R5.20",
+  "a dummy break behind an event that is only reachable from the loop (D9)")
+M("C07", "d9-revert", CUG,
+  "                ) and event not in loop.end_events and (\n                    event in loop.loop_events\n                ):",
+  "                ) and event not in loop.end_events:", "R7.16",
+  "a dummy break behind an event that is only reachable from the loop: "
+  "`break` outside the repeat (D9)")
+T("C07", "twin-d9-membership-only", CUG,
+  '''                if has_path_back_to_chosen_nodes(
+                    event, loop.loop_events.difference(loop.end_events), graph
+                ) and event not in loop.end_events and (
+                    event in loop.loop_events
+                ):''',
+  '''                if event in loop.loop_events and (
+                    event not in loop.end_events
+                ):''',
+  "the reachability test is implied for an event of the loop")
